@@ -73,6 +73,34 @@ var orderFuncs = map[string]bool{
 // fork tests per transcribed function (a multiset: where in the function they stand does not matter)
 var flagReads map[string][]string
 
+// numeric conversions an amount passes through, per function, in source order (callee names only: renaming a
+// variable changes nothing, dropping / adding / swapping a conversion does)
+var convCalls = map[string]bool{"FormatDecimalForERC20": true, "FormatDecimalForRocket": true, "Float64ToBigInt": true,
+	"Uint64ToBigInt": true, "BigIntToStrWithoutDot": true, "BigIntToStr": true, "StrToBigInt": true, "strToBigInt": true,
+	"bigIntToStr": true, "ParseUint": true, "SetUint64": true}
+var convFuncs = map[string]bool{
+	"src/storage/account/accountdb_tuntun.go:AccountDB.AddFT":    true,
+	"src/storage/account/accountdb_tuntun.go:AccountDB.SubFT":    true,
+	"src/storage/account/accountdb_tuntun.go:AccountDB.SetFT":    true,
+	"src/storage/account/accountdb_tuntun.go:AccountDB.GetFT":    true,
+	"src/service/miner_manager.go:MinerManager.AddStake":         true,
+	"src/service/miner_manager.go:MinerManager.AddMiner":         true,
+	"src/service/refund_manager.go:RefundManager.GetRefundStake": true,
+	"src/vm/instructions.go:opStake":                             true,
+	"src/vm/instructions.go:opUnStake":                           true,
+	"src/vm/instructions.go:opUnStakeAll":                        true,
+	"src/utility/data_convert.go:FormatDecimalForERC20":          true,
+	"src/utility/data_convert.go:FormatDecimalForRocket":         true,
+	"src/utility/data_convert.go:BigIntToStrWithoutDot":          true,
+	"src/utility/data_convert.go:Uint64ToBigInt":                 true,
+	"src/service/game.go:transferBalance":                        true,
+	"src/executor/miner_executor.go:minerRefundExecutor.Execute": true,
+}
+var conversions = map[string][]string{}
+
+// comparisons against zero of a Cmp / Sign result, per transcribed function, in source order: "Cmp<0", "Sign>=0", ...
+var compares = map[string][]string{}
+
 // (function:callee, account and amount expressions) of the balance guard and the transfer in the EVM entry points
 var guardArgs [][2]string
 
@@ -320,6 +348,71 @@ func main() {
 				}
 				return true
 			})
+			if convFuncs[key] {
+				type item struct {
+					pos  token.Pos
+					name string
+				}
+				var items []item
+				ast.Inspect(fd.Body, func(n ast.Node) bool {
+					if x, ok := n.(*ast.CallExpr); ok && convCalls[calleeName(x)] {
+						items = append(items, item{x.Pos(), calleeName(x)})
+					}
+					return true
+				})
+				sort.SliceStable(items, func(i, j int) bool { return items[i].pos < items[j].pos })
+				seq := []string{}
+				for _, it := range items {
+					seq = append(seq, it.name)
+				}
+				conversions[key] = seq
+			}
+			if orderFuncs[key] || convFuncs[key] {
+				type item struct {
+					pos  token.Pos
+					name string
+				}
+				var items []item
+				ast.Inspect(fd.Body, func(n ast.Node) bool {
+					b, ok := n.(*ast.BinaryExpr)
+					if !ok {
+						return true
+					}
+					side := func(call, lit ast.Expr, flip bool) {
+						c, ok := call.(*ast.CallExpr)
+						if !ok {
+							return
+						}
+						nm := calleeName(c)
+						if nm != "Cmp" && nm != "Sign" && nm != "CmpAbs" {
+							return
+						}
+						neg := ""
+						if u, ok := lit.(*ast.UnaryExpr); ok && u.Op == token.SUB {
+							neg = "-"
+							lit = u.X
+						}
+						l, ok := lit.(*ast.BasicLit)
+						if !ok {
+							return
+						}
+						op := b.Op.String()
+						if flip {
+							op = map[string]string{"<": ">", ">": "<", "<=": ">=", ">=": "<=", "==": "==", "!=": "!="}[op]
+						}
+						items = append(items, item{b.Pos(), nm + op + neg + l.Value})
+					}
+					side(b.X, b.Y, false)
+					side(b.Y, b.X, true)
+					return true
+				})
+				sort.SliceStable(items, func(i, j int) bool { return items[i].pos < items[j].pos })
+				seq := []string{}
+				for _, it := range items {
+					seq = append(seq, it.name)
+				}
+				compares[key] = seq
+			}
 			if orderFuncs[key] {
 				// ledger-relevant calls and every `return`, in source order: an early return slipped in
 				// between two ledger steps (or before a balance is zeroed) changes the sequence
@@ -457,6 +550,29 @@ func main() {
 		fmt.Fprintf(&sb, "  (%s, %s)%s\n", q(g[0]), q(g[1]), sep)
 	}
 	sb.WriteString("]\n\n")
+	emitMap := func(doc, name string, m map[string][]string) {
+		sb.WriteString("/-- " + doc + " -/\n")
+		sb.WriteString("def " + name + " : List (String × List String) := [\n")
+		ks := []string{}
+		for k := range m {
+			ks = append(ks, k)
+		}
+		sort.Strings(ks)
+		for i, k := range ks {
+			sep := ","
+			if i == len(ks)-1 {
+				sep = ""
+			}
+			var qs []string
+			for _, x := range m[k] {
+				qs = append(qs, q(x))
+			}
+			fmt.Fprintf(&sb, "  (%s, [%s])%s\n", q(k), strings.Join(qs, ", "), sep)
+		}
+		sb.WriteString("]\n\n")
+	}
+	emitMap("the numeric conversions an amount passes through inside each function (callee names, source order)", "conversions", conversions)
+	emitMap("every comparison of a Cmp / Sign result with a literal inside each transcribed function (source order)", "compares", compares)
 	sb.WriteString("/-- writes to package-level state inside the files of the ledger path: assignments to, and in-place big.Int/Float\n    mutation of, package-level variables (file, function, what) -/\n")
 	sb.WriteString("def globalWrites : List (String × String × String) := [\n")
 	gw := collectGlobalWrites(root)
